@@ -84,6 +84,7 @@ func SpecEofIdx(lines [][]byte, i int) int {
 //@   modifies fsWrites
 //@   checks[C13,C16] one-file-never-stops-the-walk: implies(called(processFile), r == nil)
 //@   checks[C13,C15] same-treatment-as-a-single-run: implies(called(processFile), argOf(processFile, 0) == path && argOf(processFile, 1) == checkOnly)
+//@   checks[C13] every-file-is-offered: implies(err == nil && called(IsDir) && !resultOf(IsDir, 0), called(processFile))
 //@   checks[C13,C16] a-failure-is-never-forgotten: implies(old(failed), failed)
 //@   checks[C13,C16] a-failure-is-recorded: implies(called(processFile) && resultOf(processFile, 0) != nil, failed)
 
